@@ -172,6 +172,42 @@ def scenarios():
         garbage_collect(r, grace_period=None)
     S["gc(grace=None)"] = gc_prune
 
+    def _source_with_new_commit(r):
+        """a sibling repository (outside the interposed root) that holds everything r has plus one commit."""
+        import tempfile
+        from dulwich.repo import Repo
+        src_dir = tempfile.mkdtemp(prefix="c09src-", dir=os.path.dirname(os.path.dirname(r.path.rstrip("/"))))
+        src = Repo.init(src_dir)
+        for sha in r.object_store:
+            src.object_store.add_object(r.object_store[sha])
+        head = r.refs[b"refs/heads/master"]
+        t = _tree(src, {b"a": b"pushed\n", b"p": b"from the other side\n" * 9})
+        c = _commit(src, t, [head], b"remote work", 500)
+        src.refs[b"refs/heads/master"] = c
+        return src, c, head
+
+    def receive_push(r):
+        # a push INTO r (receive-pack in-process: pack ingested, then the ref moved)
+        from dulwich.client import LocalGitClient
+        src, c, head = _source_with_new_commit(r)
+        try:
+            def update_refs(refs):
+                return {b"refs/heads/master": c}
+            LocalGitClient().send_pack(r.path, update_refs, src.generate_pack_data)
+        finally:
+            src.close()
+    S["receive_push(local)"] = receive_push
+
+    def fetch_into(r):
+        from dulwich import porcelain
+        src, c, head = _source_with_new_commit(r)
+        try:
+            import io
+            porcelain.fetch(r, src.path, outstream=io.BytesIO(), errstream=io.BytesIO())
+        finally:
+            src.close()
+    S["fetch(local)"] = fetch_into
+
     def index_write(r):
         from dulwich.index import IndexEntry
         idx = r.open_index()
@@ -618,7 +654,7 @@ def run(ctx):
         excs = [("KeyboardInterrupt", lambda: KeyboardInterrupt())]
         if not ctx.quick:
             excs.append(("EIO", lambda: OSError(errno.EIO, "injected")))
-        stride = ctx.pick(3, 1)
+        stride = ctx.pick(3 if ncalls < 100 else 7, 1)
         for k in range(0, ncalls, 1):
             if ctx.quick and (k + tid) % stride:
                 continue
